@@ -423,10 +423,6 @@ def gen_python(seed, rename=None):
     return text, json.loads(json.dumps(meta))        # (string keys throughout, exactly as a replay file holds it)
 
 
-def render_python_again(seed, rename):
-    """The same program (same seed) with some occurrences renamed."""
-    return gen_python(seed, rename)
-
 
 # =====================================================================================================================
 # JavaScript, single file (sloppy mode, run in a fresh vm context per program)
